@@ -43,7 +43,8 @@ def required_cells(tier):
             'import:failing-leaves-syspath', 'resolve:module-beside-plain-directory', 'import:root-already-on-syspath', 'resolve:extension-module', 'installation:file', 'installation:roundtrip', 'history:resolve-after-deleted', 'history:resolve-after-created', 'history:init-removed', 'history:init-added', 'path-to-name:every-file', 'search-path-spelling:trailing-sep', 'search-path-spelling:symlink',
             'search-path-spelling:dot', 'search-path-shape:empty-list:nothing', 'search-path-shape:empty-tuple:nothing',
             'search-path-shape:nothing-there:nothing', 'search-path-shape:second-entry:found',
-            'search-path-shape:first-entry:found', 'search-path-shape:tuple:found']
+            'search-path-shape:first-entry:found', 'search-path-shape:tuple:found',
+            'import:requested-file-wins-a-name-conflict']
 
 
 def build(rng, root, uniq):
@@ -319,6 +320,43 @@ def check_tree(ctx, idx, seed):
                 ctx.violation('import-syspath', 'import_module_from_path(%r) changed sys.path: %r' % (got, d), case)
                 continue
             ctx.cell('import')
+            if rng.random() < 0.35:
+                # two entries on sys.path hold a top-level module of this name, the other one comes first;
+                # import_module_from_path(path, index=0) is the documented way to make the requested file win
+                import importlib
+                top = name.split('.')[0]
+                shadow = root + '_shadow'
+                os.makedirs(shadow, exist_ok=True)
+                spath = os.path.join(shadow, top + '.py')
+                with open(spath, 'w') as f:
+                    f.write('SHADOW = 1\n')
+                for m in [m for m in sys.modules if m == top or m.startswith(top + '.')]:
+                    del sys.modules[m]
+                importlib.invalidate_caches()
+                sys.path.insert(0, shadow)
+                sys.path.append(root)
+                held = list(sys.path)
+                try:
+                    mod2, err2 = util_import.import_module_from_path(got, index=0), None
+                except Exception as ex:
+                    mod2, err2 = None, ex
+                now = list(sys.path)
+                sys.path[:] = original_path
+                for m in [m for m in sys.modules if m == top or m.startswith(top + '.')]:
+                    del sys.modules[m]
+                os.unlink(spath)
+                importlib.invalidate_caches()
+                mf2 = getattr(mod2, '__file__', None)
+                if err2 is not None or not mf2 or os.path.realpath(mf2) != os.path.realpath(got):
+                    ctx.violation('import-shadowed', 'import_module_from_path(%r, index=0) with another sys.path entry holding a '
+                                  'module %r in front: %s' % (os.path.relpath(got, root), top,
+                                                              'raised %r' % (err2,) if err2 is not None else
+                                                              'returned a module loaded from %r' % (mf2,)), case)
+                    continue
+                if now != held:
+                    ctx.violation('import-syspath', 'import_module_from_path(%r, index=0) changed sys.path' % (got,), case)
+                    continue
+                ctx.cell('import:requested-file-wins-a-name-conflict')
         # ---- history: the tree changes between two resolutions in the same process (files appear and disappear);
         # every answer must describe the tree as it is at that moment
         if idx % 2 == 0:
@@ -400,6 +438,7 @@ def check_tree(ctx, idx, seed):
     finally:
         shutil.rmtree(root, ignore_errors=True)
         shutil.rmtree(root + '_empty', ignore_errors=True)
+        shutil.rmtree(root + '_shadow', ignore_errors=True)
         try:
             os.unlink(root + '_link')
         except OSError:
